@@ -41,7 +41,9 @@ _LOGGER = logging.getLogger(__name__)
 
 _END_PATTERN = r"{}$".format(
     "".join(
-        {
+        # Sorted: the terminators come from a set, and the order in which they
+        # are tried must not depend on the string hash seed.
+        sorted({
             r"(?:{})*".format(item)  # pylint: disable=consider-using-f-string
             for item in chain(
                 (
@@ -63,7 +65,7 @@ _END_PATTERN = r"{}$".format(
                     ]
                 ),
             )
-        }
+        })
     )
 )
 _LICENSE_IDENTIFIER_PATTERN = re.compile(
